@@ -106,6 +106,11 @@ Theorem C11_constructor_reports_validated_bounds : forall (A : Type) (H : Num A)
   ctor k n b cb = Accept (raw, scb) ->
   validate_bounds n b = Accept raw /\ forallb (fun r => Nat.eqb (length r) 2) raw = true.
 Proof. exact (@ctor_reports_bounds). Qed.
+Theorem C11_cdevice2_ranges_tile_the_horizon : forall (A : Type) (H : Num A) n (b cb : pv A) raw l,
+  ctor CC2 n b cb = Accept (raw, Some l) ->
+  (exists c, l = [c]) \/ (covers n l = true /\ contiguous_from (PNum (nofZ 0)) l = true).
+Proof. exact (@ctor_cdevice2_ranges). Qed.
+
 (* ---------------------------------------------------------------- generated parameter guards = documented ranges *)
 Local Open Scope R_scope.
 Theorem C11_params_CDevice_a : forall a : R, CDevice_a_accepts a = true <-> a <= 0.
